@@ -194,6 +194,8 @@ pub struct View {
     pub models: Vec<(H, ModelSnap)>,
     /// handles of elements that are not part of any known model
     pub detached: Vec<H>,
+    /// handles of elements that are still linked into the tree of a model whose last handle was dropped
+    pub orphans: Vec<H>,
     /// files known to the world that are no longer in their model
     pub removed_files: Vec<H>,
     pub live_files: Vec<(H, H)>, // (file, model)
@@ -206,9 +208,34 @@ impl View {
             models.push((h, crate::obs::snapshot(&m)));
         }
         let mut detached = Vec::new();
+        let mut orphans = Vec::new();
         for (h, e) in world.elems_in_order() {
             if !models.iter().any(|(_, ms)| ms.by_elem.contains_key(&e)) {
-                detached.push(h);
+                // removed from a tree, or part of the intact tree of a dropped model?
+                let mut top = e.clone();
+                let mut steps = 0;
+                let mut intact_root = false;
+                loop {
+                    match top.parent() {
+                        Ok(Some(p)) => {
+                            top = p;
+                            steps += 1;
+                            if steps > 10_000 {
+                                break;
+                            }
+                        }
+                        Ok(None) => {
+                            intact_root = true;
+                            break;
+                        }
+                        Err(_) => break,
+                    }
+                }
+                if intact_root {
+                    orphans.push(h);
+                } else {
+                    detached.push(h);
+                }
             }
         }
         let mut removed_files = Vec::new();
@@ -228,6 +255,7 @@ impl View {
         View {
             models,
             detached,
+            orphans,
             removed_files,
             live_files,
         }
@@ -317,6 +345,9 @@ impl<'a> Gen<'a> {
     fn pick_elem(&mut self, pred: &dyn Fn(&Node) -> bool) -> Option<H> {
         if !self.view.detached.is_empty() && self.permille(self.prof.stale_permille) {
             return Some(self.rng.pick(&self.view.detached));
+        }
+        if !self.view.orphans.is_empty() && self.permille(self.prof.stale_permille) {
+            return Some(self.rng.pick(&self.view.orphans));
         }
         let m = if self.view.models.len() > 1 && self.permille(self.prof.foreign_permille) {
             let i = 1 + self.rng.below(self.view.models.len() - 1);
@@ -525,6 +556,14 @@ impl<'a> Gen<'a> {
                 let (mh, _) = self.pick_model()?;
                 let f = self.pick_file()?;
                 Some(Op::new(K::MRemoveFile, *mh).b(f))
+            }
+            K::MDrop => {
+                // only a secondary model, and rarely: its files and elements stay behind as orphans
+                if self.view.models.len() < 2 || !self.permille(self.prof.abuse_permille) {
+                    return None;
+                }
+                let i = 1 + self.rng.below(self.view.models.len() - 1);
+                Some(Op::new(k, self.view.models[i].0))
             }
             K::MSerializeFiles | K::MFiles | K::MRoot | K::MDuplicate | K::MSort | K::MIdentifiables | K::MCheckRefs | K::MDebug => {
                 let (mh, ms) = self.pick_model()?;
